@@ -282,8 +282,10 @@ def main(tier):
     items = [("aug", tier, seed)]
     # (environments whose reward lives in the episode state - mTSP min-max, MDCPDP - cannot be evaluated by tasks/eval.py
     # at all: it recomputes rewards from the INITIAL state and raises KeyError; best-of-k on them is judged in C12)
-    for skey in ("tsp", "cvrp"):
+    for skey in ("tsp", "cvrp", "op:dist"):
         for method, mkw in METHODS:
+            if skey == "op:dist" and method not in ("greedy", "sampling", "augment_dihedral_8"):
+                continue  # OP: a prize-collecting objective whose value must come from (instance, actions), not from a state
             for bs in (1, 2, 3):
                 items.append(("eval", skey, tier, seed, method, mkw, bs))
                 # variable-length episodes: all orders of the data set (all assignments of instances to loader batches)
